@@ -170,6 +170,13 @@ class DefSyms:
     def sym(self, kind, bases, vars, bodies, sort, tag=''):
         phs = [z3.Const('__ph%d_%s' % (n, v.sort()), v.sort()) for n, v in enumerate(vars)]
         canon = [z3.simplify(z3.substitute(b, *zip(vars, phs))) if vars else z3.simplify(b) for b in bodies]
+        # constant folding of folds over an always-false / always-true body
+        if kind == 'ANY' and len(canon) == 1 and z3.is_false(canon[0]):
+            return z3.BoolVal(False)
+        if kind == 'ALL' and len(canon) == 1 and z3.is_true(canon[0]):
+            return z3.BoolVal(True)
+        if kind == 'COUNT' and any(z3.is_false(c) for c in canon):
+            return z3.IntVal(0)
         free = self.free_consts(canon, {p.get_id() for p in phs})
         base_ids = {b.get_id() for b in bases}
         free = [f for f in free if f.get_id() not in base_ids]
@@ -1130,6 +1137,10 @@ class Interp:
                 self.emit(Ev('Break', label=label))
                 if spec.at_break:
                     spec.at_break(self, env, captured, self.path.events[mark:])
+                elif spec.at_end:
+                    # the contract describes this loop iteration by iteration and does not expect an early exit
+                    self.emit(Ev('Check', name='%s.no-unexpected-break' % label.split('.')[-1], formula=z3.BoolVal(False),
+                                 hyps=list(self.path.pc), info={}))
                 return     # continue after the loop on this path
             except _Continue:
                 pass
